@@ -57,6 +57,31 @@ func (vc *VC) call(st *State, fr *Frame, x *ssa.Call, k func(*State, *Frame)) {
 						env.bind(fmt.Sprintf("arg%d", k), a, callee.Params[k].Type())
 					}
 				}
+				if ac.Unfold {
+					ec := &evalCtx{vc: vc, now: st, old: st.ctx.old, pkg: vc.fn.Pkg.Pkg, fn: vc.fn}
+					root := env
+					for root.parent != nil {
+						root = root.parent
+					}
+					root.parent = vc.baseEnv(st.ctx)
+					ec.env = env
+					vc.pure++
+					f, err := ec.unfold(ac.Clause.Text)
+					vc.pure--
+					if err != nil {
+						if strings.Contains(err.Error(), "unknown name") {
+							continue
+						}
+						vc.fail(fmt.Errorf("%s:%d: %v", ac.Clause.File, ac.Clause.Line, err))
+						return
+					}
+					if vc.atUsed == nil {
+						vc.atUsed = map[string]int{}
+					}
+					vc.atUsed[ac.Clause.Text]++
+					vc.assume(st, f)
+					continue
+				}
 				t, err := vc.evalClause(st.ctx, st, st.ctx.old, ac.Clause.Text, env)
 				if err != nil {
 					if strings.Contains(err.Error(), "unknown name") {
@@ -127,6 +152,14 @@ func (vc *VC) call(st *State, fr *Frame, x *ssa.Call, k func(*State, *Frame)) {
 	vc.check(st, vc.nonnil(st, fv.S), "nil", site)
 	for _, a := range args {
 		st.escape(a)
+	}
+	if fr.top && st.tr != nil && vc.recDyn() != nil {
+		idx := vc.trRecordDyn(st, fv, args)
+		inner := cont
+		cont = func(st *State, fr *Frame, res T) {
+			vc.trResultDyn(st, idx, res)
+			inner(st, fr, res)
+		}
 	}
 	vc.dynCall(st, fr, x, fv, args, cont)
 }
@@ -346,6 +379,7 @@ func (vc *VC) dynCall(st *State, fr *Frame, x *ssa.Call, fv T, args []T, cont fu
 	idx := st.callsN
 	st.callsN = app("+", st.callsN, "1")
 	preCall := st.clone()
+	preCall.callsN = idx // old(ncalls()) inside clauses about this call = the count before it
 	// contract of the named function type of the callee value, if it has one
 	var fb *Block
 	var fbPkg *types.Package
@@ -485,6 +519,30 @@ func (vc *VC) applyPreserves(st, pre *State) {
 	vc.note("assumed: dynamic calls do not modify " + strings.Join(pres, ", "))
 	for _, t := range tg {
 		if t.all {
+			continue
+		}
+		o := vc.heapName(pre, t.key, vc.heapSort[t.key])
+		n := vc.heapName(st, t.key, vc.heapSort[t.key])
+		if o == n {
+			continue
+		}
+		vc.assume(st, fmt.Sprintf("(forall ((a Int)) (! (=> %s (= (select %s a) (select %s a))) :pattern ((select %s a))))", t.region("a"), n, o, n))
+	}
+}
+
+// assumePreserved: the targets named in pres have the value they had in pre.
+func (vc *VC) assumePreserved(st, pre *State, pres []string, pkg *types.Package, env *Env, file string, line int) {
+	tmp := &Block{Modifies: pres, File: file, Line: line}
+	tg, err := vc.modTargets(tmp, pkg, env, pre)
+	if err != nil {
+		vc.fail(err)
+		return
+	}
+	for _, t := range tg {
+		if t.all {
+			continue
+		}
+		if _, ok := vc.heapSort[t.key]; !ok {
 			continue
 		}
 		o := vc.heapName(pre, t.key, vc.heapSort[t.key])
@@ -795,6 +853,11 @@ func (vc *VC) applyContract(st *State, fr *Frame, blk *Block, callee *ssa.Functi
 			return
 		}
 	}
+	if len(blk.Preserves) > 0 {
+		// the callee's frame is `everything except ...`: the exception is an
+		// obligation of the callee (preserves.*) and may be used here
+		vc.assumePreserved(st, pre, blk.Preserves, pkg, env, blk.File, blk.Line)
+	}
 	vc.bumpMark(st)
 	if blk.mentions("ncalls(") {
 		// the callee makes dynamic calls: ghost call history advances as its contract says
@@ -930,6 +993,51 @@ func (vc *VC) modTargets(blk *Block, pkg *types.Package, env *Env, pre *State) (
 			mk := vc.mapInfo(t)
 			for _, k := range []string{mk.has, mk.val, mk.len} {
 				out = append(out, modTarget{key: k, region: func(a string) string { return "true" }})
+			}
+			continue
+		}
+		if strings.HasPrefix(text, "anycell(") && strings.HasSuffix(text, ")") {
+			// the elements of every slice of the given slice type: anycell([]pkg.T)
+			te, err := parser.ParseExpr(text[len("anycell(") : len(text)-1])
+			if err != nil {
+				return nil, fmt.Errorf("%s:%d: modifies %q: %v", blk.File, blk.Line, m, err)
+			}
+			ec := &evalCtx{vc: vc, now: pre, old: pre, pkg: pkg, env: env, fn: vc.fn}
+			tt, err := ec.typeExpr(te)
+			if err != nil {
+				return nil, fmt.Errorf("%s:%d: modifies %q: %v", blk.File, blk.Line, m, err)
+			}
+			sl, ok := tt.Underlying().(*types.Slice)
+			if !ok {
+				return nil, fmt.Errorf("%s:%d: modifies %q: not a slice type", blk.File, blk.Line, m)
+			}
+			for _, l := range vc.leaves(sl.Elem()) {
+				out = append(out, modTarget{key: l.key, region: func(a string) string { return "true" }})
+			}
+			continue
+		}
+		if strings.HasPrefix(text, "anyfield(") && strings.HasSuffix(text, ")") {
+			// the field of every object of the struct type: anyfield(pkg.Struct.Field)
+			inner := text[len("anyfield(") : len(text)-1]
+			dot := strings.LastIndexByte(inner, '.')
+			if dot < 0 {
+				return nil, fmt.Errorf("%s:%d: modifies %q: want anyfield(pkg.Struct.Field)", blk.File, blk.Line, m)
+			}
+			te, err := parser.ParseExpr(inner[:dot])
+			if err != nil {
+				return nil, fmt.Errorf("%s:%d: modifies %q: %v", blk.File, blk.Line, m, err)
+			}
+			ec := &evalCtx{vc: vc, now: pre, old: pre, pkg: pkg, env: env, fn: vc.fn}
+			st, err := ec.typeExpr(te)
+			if err != nil {
+				return nil, fmt.Errorf("%s:%d: modifies %q: %v", blk.File, blk.Line, m, err)
+			}
+			keys, err := vc.fieldTargets(T{S: "0", Sort: SInt}, types.NewPointer(st), inner[dot+1:], pkg)
+			if err != nil {
+				return nil, fmt.Errorf("%s:%d: modifies %q: %v", blk.File, blk.Line, m, err)
+			}
+			for _, k := range keys {
+				out = append(out, modTarget{key: k.key, region: func(a string) string { return "true" }})
 			}
 			continue
 		}
